@@ -11,7 +11,9 @@ import Zrnt.Schema.Spec
                                       `ok len=<byteLength> fixed=<fixedLen> htr=<hash_tree_root>`
     st <label> <Type> <cfg> <claimed root> <hex>
                                       a tree-backed state after a mutation step: `err`, or
-                                      `ok htr=<hash_tree_root> claimed=<same|stale>`
+                                      `ok htr=<r> claimed=<r>` with `r` the hash_tree_root of the bytes: the EXPECTED answer.
+                                      (Go answers `htr=` root of a view rebuilt from the bytes, `claimed=` the root the
+                                      mutated view reported; a stale cached hash makes `claimed` differ.)
 
 `<cfg>` is `v1,v2,…`: the values of `Schema.Spec.configKeys` in order. The label is free text without
 blanks (input class, for statistics and for keying known findings); it does not influence the answer. -/
@@ -73,8 +75,10 @@ def sszLine (line : String) : String :=
       match decode t b.data.toList with
       | none => "err"
       | some v =>
+        -- the oracle's answer is the expected one: the root the mutated view reported must be the root of its content
+        let _ := claimed
         let r := hexOf (htr sha2 t v)
-        s!"ok htr={r} claimed={if r == claimed then "same" else "stale"}"
+        s!"ok htr={r} claimed={r}"
     | _, _ => "bad-op"
   | _ => "bad-op"
 
